@@ -321,42 +321,124 @@ def remote_error(e: BaseException) -> dict[str, Any]:
     }
 
 
+def kill_tree(pid: int) -> None:
+    """SIGKILL a process and its descendants (by recorded pid, /proc scan)."""
+    kids: dict[int, list[int]] = {}
+    try:
+        for d in os.listdir('/proc'):
+            if d.isdigit():
+                try:
+                    with open('/proc/%s/stat' % d) as f:
+                        st = f.read()
+                    ppid = int(st.rsplit(')', 1)[1].split()[1])
+                    kids.setdefault(ppid, []).append(int(d))
+                except (OSError, ValueError, IndexError):
+                    pass
+    except OSError:
+        pass
+    todo, seen = [pid], []
+    while todo:
+        x = todo.pop()
+        seen.append(x)
+        todo.extend(kids.get(x, []))
+    for x in reversed(seen):
+        try:
+            os.kill(x, signal.SIGKILL)
+        except OSError:
+            pass
+
+
+_SERVERS: list[Any] = []
+STARTUP_TIMEOUT_S = 240
+
+
+def _tracked_compiler(workers: int, env: dict[str, str]) -> Any:
+    """compiledrv.PortCompiler whose server Popen is remembered, so that a
+    server that never becomes ready can be killed by pid."""
+    from vlib.compiledrv import PortCompiler
+
+    class Tracked(PortCompiler):
+        def _start_server(self, *a: Any, **k: Any) -> None:  # type: ignore
+            super()._start_server(*a, **k)
+            _SERVERS.append(self.p)
+
+    return Tracked(workers, env=env)
+
+
 class Driver:
-    """One real attached Compiler per worker process; rebuilt after errors."""
+    """One real attached Compiler per worker process; rebuilt after errors.
+    Both start-up and every compile run under a SIGALRM watchdog (a runtime
+    that never answers makes the case inconclusive, never a verdict)."""
 
     def __init__(self, workers: int, hashseed: int) -> None:
         self.workers = workers
         self.env = {'PYTHONHASHSEED': str(hashseed)}
         self.comp: Any = None
+        self.dead = False
 
     def get(self) -> Any:
-        if self.comp is None:
-            from vlib.compiledrv import new_compiler
-            self.comp = new_compiler(self.workers, env=self.env)
-        return self.comp
+        if self.comp is not None:
+            return self.comp
+        if self.dead:
+            raise RuntimeError('no compiler could be started in this worker')
+        last: BaseException | None = None
+        for _ in range(3):
+            old = signal.signal(signal.SIGALRM, _alarm)
+            signal.alarm(STARTUP_TIMEOUT_S)
+            try:
+                self.comp = _tracked_compiler(self.workers, self.env)
+                return self.comp
+            except BaseException as e:  # noqa
+                signal.alarm(0)
+                if isinstance(e, (KeyboardInterrupt, SystemExit)):
+                    raise
+                last = e
+                while _SERVERS:
+                    p = _SERVERS.pop()
+                    if p is not None and p.poll() is None:
+                        kill_tree(p.pid)
+            finally:
+                signal.alarm(0)
+                signal.signal(signal.SIGALRM, old)
+        self.dead = True
+        raise RuntimeError('could not start a compiler: %r' % (last,))
 
     def drop(self) -> None:
         c, self.comp = self.comp, None
-        if c is not None:
-            try:
-                c.close()
-            except BaseException:  # noqa
-                pass
-            try:
-                if getattr(c, 'p', None) is not None:
-                    c.p.kill()
-            except BaseException:  # noqa
-                pass
+        if c is None:
+            return
+        p = getattr(c, 'p', None)
+        old = signal.signal(signal.SIGALRM, _alarm)
+        signal.alarm(20)
+        try:
+            c.close()
+        except BaseException as e:  # noqa
+            if isinstance(e, (KeyboardInterrupt, SystemExit)):
+                raise
+        finally:
+            signal.alarm(0)
+            signal.signal(signal.SIGALRM, old)
+        if p is not None and p.poll() is None:
+            kill_tree(p.pid)
+        if p in _SERVERS:
+            _SERVERS.remove(p)
 
     def compile(self, circuit: Any, wf: Any, timeout: int, data: Any = None) -> Any:
         comp = self.get()
+        p = getattr(comp, 'p', None)
         old = signal.signal(signal.SIGALRM, _alarm)
         signal.alarm(int(timeout))
         try:
             return comp.compile(circuit, wf, request_data=True, data=data)
         except BaseException:
             signal.alarm(0)
-            self.drop()
+            # the Compiler has closed itself; make sure its server and the
+            # server's workers are gone (a busy worker survives SIGINT)
+            self.comp = None
+            if p is not None and p.poll() is None:
+                kill_tree(p.pid)
+            if p in _SERVERS:
+                _SERVERS.remove(p)
             raise
         finally:
             signal.alarm(0)
